@@ -5,7 +5,11 @@ from .common import TRUSTED as _T, ASSUMPTIONS as _A, default_nontrivial, LEVEL_
 LEVEL = "proof"
 HBIN = "/verif/harness_arr/target/release/slarr"
 DRIVER = "/verif/lean/.lake/build/bin/slvarr"
-THEOREMS = []
+THEOREMS = ["C17_index", "C17_index_labelled", "C17_oob_refused", "C17_write_frame", "C17_write_frame_labelled",
+            "C17_from_iter", "C17_from_iter_labelled", "C17_from_fn", "C17_from_fn_labelled",
+            "C17_iter_complete", "C17_iter_complete_labelled", "C17_ragged_observation",
+            "C17_iter_with", "C17_iter_with_labelled", "C17_down", "C17_clone_eq",
+            "C17_conv_asref_zeros_default", "C17_product", "C17_try_from_first_error", "C17_labelled_shape"]
 RULE = ("array programs (build from fn / flat / nested, get, set via index_mut, iter_mut, down/down_mut, clone, ==, swap, "
         "conv, as_ref, zeros/default, product2/3(_iter), try_from with failing cells, iter / iter_with / index dumps, "
         "indexes/keys) on every shape with each dimension in 0..3 (quick) / 0..4 (thorough), ranks 1..3, unlabelled + "
@@ -19,7 +23,7 @@ nontrivial = default_nontrivial
 
 def cases(rng, tier):
     maxdim = 3 if tier == "quick" else 4
-    per = 2 if tier == "quick" else 8
+    per = 20 if tier == "quick" else 150
     out = []
     for dims in A.shapes(maxdim):
         for v in A.VARIANTS:
